@@ -333,3 +333,23 @@ func H_self_time() {
 	}
 	vDone()
 }
+
+// H_sym_itoa: the decimal text of a symbolic integer parses back to it (through the
+// variant conversions the library uses), and parsing the same text twice agrees.
+func H_sym_itoa() {
+	x := vInt64("x")
+	ops := variants.NewTypeUnsafeVariantOperations()
+	s, err := ops.Convert(variants.VariantFromLong(x), variants.String)
+	vAssert(err == nil && s != nil, "itoa:converts")
+	if err != nil || s == nil {
+		return
+	}
+	back, err2 := ops.Convert(s, variants.Long)
+	vAssert(err2 == nil && back != nil && back.AsLong() == x, "itoa:parses-back")
+	again, _ := ops.Convert(variants.VariantFromString(s.AsString()+"0"), variants.Long)
+	again2, _ := ops.Convert(variants.VariantFromString(s.AsString()+"0"), variants.Long)
+	if again != nil && again2 != nil {
+		vAssert(again.AsLong() == again2.AsLong(), "itoa:same-text-same-value")
+	}
+	vDone()
+}
